@@ -4,6 +4,7 @@
 mod c25;
 mod c26;
 mod c27;
+mod c31;
 mod common;
 mod corpus;
 
@@ -13,6 +14,7 @@ fn main() {
         "C25" => c25::run(&args),
         "C26" => c26::run(&args),
         "C27" => c27::run(&args),
+        "C31" => c31::run(&args),
         p => mcx::machinery_error(&format!("vm-check does not serve {p}")),
     }
 }
